@@ -173,7 +173,8 @@ def small_files(res, L, scratch):
 
 
 def run_shard(spec, tier, scratch):
-    res = fw.ShardResult()
+    res = fw.ShardResult().begin(spec, tier)  # a result may depend on earlier conversions in the process: a failure is re-created by re-running the shard
+    res.next_call()
     L = conv.layout_from(spec["layout"])
     run_layout(res, L, tier, scratch)
     if spec.get("extras"):
